@@ -68,6 +68,8 @@ func applySim(v *Verdict, res *simrt.Result) {
 	v.Count("context_switches", int64(res.Switches))
 	v.Count("yields", res.Yields)
 	v.Count("arrivals", int64(res.Arrivals))
+	v.Count("adopted_goroutines", int64(res.Spawned))
+	v.Count("fault_hooks_fired", int64(res.HooksFired))
 }
 
 // ---------------------------------------------------------------- writers
@@ -183,7 +185,7 @@ func genOpenCfg(r *simrt.Rand, allowLossy bool) OpenCfg {
 	case 3:
 		o.Cache, o.CacheBytes = "lru", uint64(r.Range(600, 4096))
 	default:
-		o.Cache, o.CacheBytes = "lru", 64<<20
+		o.Cache, o.CacheBytes = "lru", []uint64{64 << 20, 64 << 20, 1 << 63, 1<<64 - 1}[r.Intn(4)]
 	}
 	if allowLossy && o.Cache != "" && r.Chance(1, 3) {
 		o.Lossy = []int{50, 200, 500}[r.Intn(3)]
